@@ -23,6 +23,7 @@ static void h_build_descriptor(void)
         for (i = 0; i < H_NC; i++) {
                 struct cat_command *c = &h_cmds[i];
                 c->name = h_pick_str(h_names[i]);
+                __CPROVER_assume(h_names[i][0] != 0);   /* domain: command names are not empty */
                 c->description = NB() ? h_pick_str(h_descr[i]) : NULL;
                 c->write = NB() ? e_cmd_write : NULL;
                 c->read = NB() ? e_cmd_read : NULL;
@@ -139,6 +140,7 @@ static void h_reset_logs(void)
 #endif
         g_sat = 0; g_ndig = 0; g_size = 0; g_nesc = 0;
         g_k = nondet_size(); g_j = nondet_size(); g_w = nondet_size();
+        { size_t t; for (t = 0; t < H_NL + 2; t++) g_typed[t] = nondet_char(); }
         g_len = h_obj.length;
         if (h_obj.var != NULL && g_j < H_DS) g_oldbyte = ((const uint8_t *)h_obj.var->data)[g_j];
 }
